@@ -32,6 +32,8 @@ def _zero_cell(dt):
         return 0
     if k == "c":
         return 0j
+    if k == "V":
+        return b""
     raise Unsupported("zero of dtype %s" % dt)
 
 
